@@ -149,6 +149,17 @@ def instances(tier, seed):
     # and remembered across a re-transcription
     for mi, (method, ncl) in enumerate((('MS', 2), ('DC', 2), ('SS', 3))):
         add(kind='stage-values', method=method, nclones=ncl, N=2 + mi % 2)
+    # per-interval / per-node parameters inside constraints placed at the COLLOCATION points and at the integrator points, several integrator steps per
+    # control interval: every instance reads the column of its own control interval
+    for N, M, g, (degree, scheme), hi in ((3, 2, fam.G_UNI, (2, 'radau'), 0), (2, 3, fam.G_GEO_LOC, (1, 'legendre'), 2), (3, 2, fam.G_UNI_LT, (3, 'radau'), 5)):
+        sp = pmodel()
+        sp.cons = list(sp.cons) + [Con('<=', X(0) * Pg('pc') + Pg('pp'), Pg('vec', 1) + 700, grid='integrator_roots'), Con('>=', X(1) + Pg('pc') * Pg('vec', 0), -600, grid='integrator')]
+        sp.note = 'per-interval parameters at the collocation points'
+        add(kind='nlp', spec=fam.with_horizon(fill_values(sp, N), H[hi]), cfg=Cfg('DC', N=N, M=M, intg='rk', grid=g, degree=degree, scheme=scheme))
+    for method, M, intg in (('MS', 2, 'rk'), ('SS', 2, 'expl_euler')):
+        sp = pmodel()
+        sp.cons = list(sp.cons) + [Con('>=', X(1) + Pg('pc') * Pg('vec', 0), -600, grid='integrator')]
+        add(kind='nlp', spec=fam.with_horizon(fill_values(sp, 3), H[0]), cfg=Cfg(method, N=3, M=M, intg=intg, grid=fam.G_GEO_LOC, degree=2, scheme='radau'))
     return items
 
 
